@@ -50,13 +50,26 @@ func (wc *WaitClose) WaitUtil(timeout time.Duration) bool {
 	}
 	//wc.assetCloseChanNotNil()
 
+	// 已经closed的直接返回true: 否则timeout很小(或<=0)时, closeChan与timer.C同时就绪, select会随机选到timer.C
+	select {
+	case <-wc.closeChan:
+		return true
+	default:
+	}
+
 	var timer = time.NewTimer(timeout)
 	select {
 	case <-wc.closeChan:
 		timer.Stop()
 		return true
 	case <-timer.C:
-		return false
+		// 超时的同时如果已经closed了(两个case同时就绪), 仍然按closed处理
+		select {
+		case <-wc.closeChan:
+			return true
+		default:
+			return false
+		}
 	}
 }
 
